@@ -184,3 +184,46 @@ def em_refine(M0, seqs, n_vocab, freq, blocks, mask_index, n_iter, eps, times=No
     for _ in range(n_iter):
         M = threshold(l1_columns(em_iteration(M, seqs, n_vocab, freq, blocks, mask_index, times, delta)), eps)
     return M
+
+
+# ---------------------------------------------------------------- multiset variant (a document is a list of multisets of tokens)
+def multiset_kernel_weights(kind, msets, target_pos, mask_index, normalize, offset, power=0.9):
+    """One weight per element of the flattened window (msets[0] is the target's own multiset): the multiset at distance j carries the
+    base weight of distance j (flat: 1, geometric: power**j), the first `offset` multisets carry 0 (as the first `offset` contexts do for
+    the sequence kernels), the target's own occurrence and masked tokens carry 0."""
+    w = []
+    for j, m in enumerate(msets):
+        base = 1.0 if kind == "flat" else power ** j
+        for q, tok in enumerate(m):
+            if j < offset or (j == 0 and q == target_pos) or (mask_index is not None and tok == mask_index):
+                w.append(0.0)
+            else:
+                w.append(base)
+    w = np.array(w, dtype=np.float64)
+    if normalize and w.sum() > 0:
+        w = w / w.sum()
+    return w
+
+
+def multiset_cooccurrence(docs, n_vocab, blocks, normalize_windows, mask_index=None):
+    """docs: list of documents, each a list of multisets (lists of token indices).  Fixed radii only."""
+    M = np.zeros((n_vocab, n_vocab * len(blocks)), dtype=np.float64)
+    for D in docs:
+        for d, mset in enumerate(D):
+            for pos, tok in enumerate(mset):
+                ws, ks = [], []
+                for b in blocks:
+                    r = int(b["radius"])
+                    msets = D[d: d + r + 1] if not b["reverse"] else list(reversed(D[max(0, d - r): d + 1]))
+                    ka = dict(b["kargs"])
+                    k = b["mix"] * multiset_kernel_weights(b["kfun"], msets, pos, mask_index, ka.get("normalize", False), ka.get("offset", 0), ka.get("power", 0.9))
+                    ws.append([t for m in msets for t in m])
+                    ks.append(k)
+                total = sum(float(k.sum()) for k in ks) if normalize_windows else 0.0
+                if total <= 0:
+                    total = 1.0
+                for bi, (ctx, k) in enumerate(zip(ws, ks)):
+                    for c, wt in zip(ctx, k):
+                        if wt > 0:
+                            M[tok, c + bi * n_vocab] += wt / total
+    return M
